@@ -525,10 +525,10 @@ def check_C10(tier, seed):
                props=("TokenSafe", "Idempotent"), rotate=True)
     # (c) transforms that duplicate or drop entities, over histories with deleted versions
     jc = job_contents()
-    jobs_stage(v, sd, binary, "C10_xf", ds=["a", "s"], ent=["e1", "e2", "e3"], contents=jc, writable=["a"], max_batch=2,
+    jobs_stage(v, sd, binary, "C10_xf", ds=["a", "s"], ent=["e1", "e2"], contents=jc, writable=["a"], max_batch=2 if thorough else 1,
                jobs=[job("dup", ["a"], "s", batch=2, xf="dup", par=2), job("drop", ["a"], "s", batch=3, xf="dropdel", par=3),
                      job("plain", ["a"], "s", batch=2, xf="none")],
-               types=("incremental", "fullsync"), max_steps=4 if thorough else 3, tables="plain,shapes",
+               types=("incremental", "fullsync"), max_steps=3, tables="plain,shapes",
                props=("TokenSafe", "Idempotent"), rotate=True)
     v.assumptions = ["what reaches the sink is recorded by a wrapper around the configured DatasetSink; with an identity "
                      "transform this is exactly what the transform was given and returned",
